@@ -243,7 +243,7 @@ def explore(ck, want_c10=False, per_case=None, quick_gs=None):
         ck.tlc("Threshold", cfg(5, 2, 3, [1, 2, 3, 4], False), "laws G=2 L=3 N<=5", timeout=3000)
         ck.tlc("Threshold", cfg(6, 3, 2, [1, 2, 3], False), "laws G=3 L=2 N<=6", timeout=3000)
         emits = [(6, 2, 3, [1, 2, 3, 4, 6, 10]), (6, 3, 2, [1, 2, 3, 4, 6, 10]), (5, 2, 4, [1, 2, 5, 10])]
-        per_case = per_case or 120
+        per_case = per_case or 60
     cases = []
     for (N, G, L, GS) in emits:
         cases += ck.tlc_shards("Threshold", lambda k: cfg(N, G, L, GS, True, 16, k, laws=False), 16, f"emit G={G} L={L} N<={N} GS={GS}", same_space=True, timeout=3000)
